@@ -10,4 +10,5 @@ def check(run, replay=None):
                 "declared methods; L2: every builder on the three receivers (existing sub-message with/without gas limit, wasm message, "
                 "cosmos message) with raw / one / several typed payload values, the returned sub-message compared field by field, then "
                 "the eventual reply (stamped id and payload) dispatched and the delivered payload compared; non-trivial = distinct operation")
-    return replyprops.check(run, "C08", "Props/C08", THEOREMS, replay)
+    return replyprops.check(run, "C08", "Props/C08", THEOREMS, replay,
+                            translated=("Props/C08T", ["c08_translated_builder_on_sub_message", "c08_translated_builder_on_message"]))
